@@ -129,6 +129,49 @@ ASSUMPTIONS = [
     "connective' (checked: no own make/__init__)",
 ]
 
+EXPLANATION += (
+    "  R18.9 (rules/c18_fresh_state.py): BlockState is updated in place "
+    "(store_local), so a derived state must be a new object - R18.5 decides "
+    "that the containers handed to a construction are fresh, R18.9 that the "
+    "state itself is: for every class of state.py (inherited methods "
+    "flattened) that stores / deletes / calls a container mutator through "
+    "`self.<..>` outside its constructor, every value returned by a plain "
+    "method that is annotated to return the class or constructs it "
+    "(with_condition, merge_into, helpers such as _copy) is a construction "
+    "made during the call - K(..), type(self)(..), copy.copy/deepcopy, "
+    "dataclasses.replace, a local all of whose bindings are such, or a "
+    "module-local helper / method all of whose returns are such; the "
+    "receiver, a parameter or something stored on one of them (`return "
+    "self`, `return other`, `a or self`) is a violation: branch and parent "
+    "would be one object and a store in the branch would leak into the "
+    "parent and its later siblings.  A class that is never updated in place "
+    "may return itself.  Blind spots: a fresh object that is also stored "
+    "somewhere else before it is returned; dunder methods; callers that keep "
+    "using the same state for two successors (frame_base).  R18.10 "
+    "(rules/c18_operands.py): And/Or may drop an operand only when an equal "
+    "operand is kept.  In every public constructor of conditions.py "
+    "(`Name = Class.method`, helpers inlined) every mapping filled with "
+    "operands (dict comprehension / display, `d[k] = operand`, setdefault), "
+    "every set/list the operands are added to and every membership test on "
+    "an operand is keyed by the operand itself or by a condition built from "
+    "it with a constructor of the module; a key computed from the operand "
+    "(repr/str/hash/type/len/format, an f-string, a field, arithmetic) is a "
+    "violation - repr is not injective (`not a and not b` is the printed "
+    "form of two different conditions), so two operands would become one; "
+    "dict()/zip()/groupby over operands and unknown callees are analysis "
+    "errors.  It does not decide what happens to the accumulated set "
+    "afterwards (R18.1 does).")
+ASSUMPTIONS += [
+    "R18.9: an attribute store / container-mutator call through `self.<..>` "
+    "(or a local alias of such a path) outside __init__/__post_init__/"
+    "__new__/__setstate__ is what makes a state class mutable; mutation "
+    "through other routes (setattr, a function receiving the container) is "
+    "not seen",
+    "R18.10: equality of conditions built by the module's constructors "
+    "(Not/And/Or, cls) coincides with equality of their operands (frozen "
+    "dataclasses, R18.7)",
+]
+
 
 # ---------------------------------------------------------------------------
 # helpers
